@@ -1,3 +1,4 @@
+import Sx.Lemmas.FailFastAll
 import Sx.Props.C13
 /-
   C15 — mode changes keep handle, chip mode and interrupt routing consistent.
@@ -156,5 +157,54 @@ theorem enum_modes_are_datasheet :
 /-- non-vacuity: entering FSK RX from a chip in FSK standby routes DIO and selects the mode -/
 example : (fskModeSpec 5 0 Chip.init).shared.rd 0x01 = 0x05 ∧ (fskModeSpec 5 0 Chip.init).shared.rd 0x40 = 0x0c
     ∧ (fskModeSpec 5 0 Chip.init).fsk.rd 0x35 = 0x1f ∧ Chip.init.isLora = false := by decide +kernel
+
+
+section failure
+open DM
+theorem KeepH_swrite (reg : Nat) (d : List UInt8) : KeepH (swrite reg d) := ⟨fun _ _ => by simp [DM.swrite, Prog.fwp]⟩
+theorem keep_append (reg : Nat) (v m : UInt8) : KeepH (appendRegister reg v m) := by
+  unfold appendRegister
+  exact KeepH_bind (KeepH_rread _) (fun _ => KeepH_swrite _ _)
+theorem fs_append (reg : Nat) (v m : UInt8) : FS (appendRegister reg v m) := by
+  unfold appendRegister
+  exact FS_bind (FS_rread _) (fun _ => FS_swrite _ _)
+
+/-- **C15, failure clause.** For every mode and modulation value, every handle and every answer
+    of chip and bus: if any transfer of `sx127x_set_opmod` fails, the handle is exactly what it
+    was (so the handle's modulation and mode change only if the call succeeds). -/
+theorem C15_handle_unchanged_on_failure (opmod modulation : Nat) : TX (setOpmod opmod modulation) := by
+  unfold setOpmod
+  dsimp only
+  have fin : TX (do swrite Gen.REGOPMODE [u8 opmod ||| u8 modulation]
+                    modH fun h => { h with activeModem := modulation, opmod := opmod }) :=
+    TX_bind_keep (KeepH_swrite _ _) (FS_swrite _ _) (fun _ => ⟨fun _ e => by cases e⟩)
+  have modT : ∀ (g : Handle → Handle), TX (modH g) := fun g => ⟨fun _ e => by cases e⟩
+  split
+  · -- LoRa
+    split
+    · apply TX_bind_keep (KeepH_swrite _ _) (FS_swrite _ _); intro _
+      exact fin
+    · split
+      · apply TX_bind_keep (KeepH_swrite _ _) (FS_swrite _ _); intro _
+        exact fin
+      · split
+        · apply TX_bind_keep (keep_append _ _ _) (fs_append _ _ _); intro _
+          exact fin
+        · exact fin
+  · split
+    · -- FSK / OOK
+      split
+      · apply TX_bind_keep (keep_append _ _ _) (fs_append _ _ _); intro _
+        apply TX_bind_keep (keep_append _ _ _) (fs_append _ _ _); intro _
+        apply TX_bind_keep (KeepH_swrite _ _) (FS_swrite _ _); intro _
+        exact fin
+      · split
+        · apply TX_bind_keep (KeepH_swrite _ _) (FS_swrite _ _); intro _
+          apply TX_bind_keep (KeepH_swrite _ _) (FS_swrite _ _); intro _
+          apply TX_bind_keep (KeepH_swrite _ _) (FS_swrite _ _); intro _
+          exact modT _
+        · exact fin
+    · exact TX_of_keepH (KeepH_fail _)
+end failure
 
 end Sx
